@@ -108,6 +108,10 @@ fn c02_cases(cx: &Ctx, p: &'static Params) -> Vec<VCase> {
             out.extend(forge::honest_cases(p, &skc, &hpk, *mode, msg, ctx, if primary { 2 } else { 0 }));
         }
     }
+    // D3b: a single hint bit placed on a coefficient of w'approx that sits on a Decompose / UseHint corner
+    out.extend(forge::usehint_corner_cases(p, &pk0, &pk0b, cx.tier.pick(2048, 16384)));
+    // D7b: butterfly-path response vectors (one NTT output slot pushed to its maximum), FIPS 204 accepts them
+    out.extend(forge::butterfly_cases(p, &pk0, &pk0b));
     // D7: the sparse-coset stress vectors completed to signatures FIPS 204 accepts (DESIGN 3.2 / 3.1a)
     out.extend(crate::e7::load_witnesses(p).into_iter().map(|(_, c)| c));
     out
@@ -675,7 +679,15 @@ fn c08_hint_reduced<const K: usize>(omega: usize, rep: &mut Report) {
                     *b = (x >> (8 * i)) as u8;
                 }
                 let spec = refmodel::hint_bit_unpack(K, omega, &y);
-                let got = hk::hint_bit_unpack::<K>(omega as i32, &y);
+                let got = match crate::subject::guard(|| hk::hint_bit_unpack::<K>(omega as i32, &y)) {
+                    Ok(g) => g,
+                    Err(pn) => {
+                        if bad.is_none() {
+                            bad = Some((y.clone(), format!("panic: {}", pn.0)));
+                        }
+                        continue;
+                    }
+                };
                 let ok = match (&spec, &got) {
                     (None, Err(_)) => {
                         rej += 1;
@@ -685,8 +697,8 @@ fn c08_hint_reduced<const K: usize>(omega: usize, rep: &mut Report) {
                         acc += 1;
                         let same = a.iter().zip(b.iter()).all(|(x, y)| x == y);
                         let mut y2 = vec![0u8; n];
-                        hk::hint_bit_pack::<false, K>(omega as i32, b, &mut y2);
-                        same && y2 == y
+                        let packed = crate::subject::guard(|| hk::hint_bit_pack::<false, K>(omega as i32, b, &mut y2)).is_ok();
+                        packed && same && y2 == y
                     }
                     _ => false,
                 };
